@@ -174,6 +174,107 @@ def fchk_section() -> str:
     return f"def fchkW : List FchkO.Row :=\n  {_rows_lean(w)}\n\ndef fchkR : List FchkO.Row :=\n  {_rows_lean(r)}\n"
 
 
+# ---------------------------------------------------------------------------------------------
+# WFN sections
+
+
+def _fmt_fields(fmt: str):
+    """fields of a `str.format` template with positional names"""
+    import re as _re
+
+    out, pos = [], 0
+    for m in _re.finditer(r"\{(\w*)(?::([^}]*))?\}", fmt):
+        if m.start() > pos:
+            out.append(("lit", fmt[pos : m.start()]))
+        pos = m.end()
+        out.append(L0._spec_field(m.group(1), m.group(2) or ""))
+    if pos < len(fmt):
+        out.append(("lit", fmt[pos:]))
+    return out
+
+
+def _const_str(node):
+    return node.value if isinstance(node, ast.Constant) and isinstance(node.value, str) else None
+
+
+@section
+def wfn_section() -> str:
+    src, tree = _src("wfn")
+    consts = {}
+    secs = []
+    for st in tree.body:
+        if isinstance(st, ast.Assign) and len(st.targets) == 1:
+            t = st.targets[0]
+            if isinstance(t, ast.Name) and _const_str(st.value) is not None:
+                consts[t.id] = st.value.value
+            if (isinstance(t, ast.Tuple) and isinstance(st.value, ast.Call) and isinstance(st.value.func, ast.Name)
+                    and st.value.func.id == "_format_helper_section"):
+                a = st.value.args
+                secs.append((t.elts[0].id, a[0].value, a[1].value, a[2].value, a[3].value))
+    fmts = [(k, _fmt_fields(consts[k])) for k in ("FMT_NUM", "FMT_ATM", "FMT_MOS", "FMT_ENERGY")]
+    d = _func(tree, "dump_one")
+    dumps = []
+    for n in walk(d):
+        if isinstance(n, ast.Call) and isinstance(n.func, ast.Name) and n.func.id == "_dump_helper_section":
+            a = n.args
+            dumps.append((ast.unparse(a[1]), ast.unparse(a[2]), a[3].value, a[5].value))
+    loads = []
+    for n in walk(tree):
+        if isinstance(n, ast.Call) and isinstance(n.func, ast.Name) and n.func.id == "_load_helper_section":
+            a = n.args
+            loads.append((a[2].value, a[3].value, a[4].value, ast.unparse(a[5])))
+    x = L0.extract("wfn")
+    helpers = ("_load_helper_num", "_load_helper_atoms", "_load_helper_mo", "_load_helper_energy")
+    slices = [(fn, a, b) for fn, t, a, b, i in x.slices if fn in helpers]
+    # string constants: startswith arguments, `"…" in line` keys, printed literals, default title
+    cs = []
+    for name in helpers + ("_load_helper_multiwfn",):
+        fn = _func(tree, name)
+        for n in walk(fn):
+            if isinstance(n, ast.Call) and isinstance(n.func, ast.Attribute) and n.func.attr == "startswith" and _const_str(n.args[0]) is not None:
+                cs.append(n.args[0].value)
+            if isinstance(n, ast.Compare) and isinstance(n.ops[0], ast.In | ast.NotIn) and _const_str(n.left) is not None:
+                cs.append(n.left.value)
+    for n in walk(d):
+        if isinstance(n, ast.Call) and isinstance(n.func, ast.Name) and n.func.id == "print" and n.args and _const_str(n.args[0]) is not None:
+            cs.append(n.args[0].value)
+    cs.append(consts["DEFAULT_WFN_TTL"])
+    by = {k: fs for k, fs in fmts}
+    I = lambda k, j: [f for f in by[k] if f[0] in ("int", "fix", "str")][j]  # noqa: E731, E741
+    sec = {s[0]: s for s in secs}
+    import re as _re
+
+    def spec_wd(spec):
+        m = _re.match(r"\{:(\d+)(?:\.(\d+))?([dE])\}$", spec)
+        if not m:
+            raise LookupError("WFN: unexpected section spec " + spec)
+        return int(m.group(1)), int(m.group(2) or 0)
+
+    sl = {}
+    for fn, a, b in slices:
+        sl.setdefault(fn, []).append((a, b))
+    pr = lambda p: f"({p[0]}, {p[1]})"  # noqa: E731
+    num, atm, mo, en = (sl[h] for h in helpers)
+    lay = [I("FMT_NUM", 0)[2], I("FMT_NUM", 1)[2], I("FMT_NUM", 2)[2], I("FMT_ATM", 0)[2], I("FMT_ATM", 1)[2], I("FMT_ATM", 3)[3],
+           I("FMT_ATM", 3)[4], I("FMT_ATM", 6)[3], I("FMT_ATM", 6)[4], sec["FMT_CNTR"][2], spec_wd(sec["FMT_CNTR"][3])[0], sec["FMT_CNTR"][4],
+           sec["FMT_EXPN"][2], *spec_wd(sec["FMT_EXPN"][3]), sec["FMT_EXPN"][4], *spec_wd(sec["FMT_COEF"][3]), sec["FMT_COEF"][4],
+           spec_wd(sec["FMT_SPIN"][3])[0], sec["FMT_SPIN"][4], I("FMT_MOS", 0)[2], I("FMT_MOS", 1)[3], I("FMT_MOS", 1)[4],
+           I("FMT_MOS", 2)[3], I("FMT_MOS", 2)[4], I("FMT_MOS", 3)[3], I("FMT_MOS", 3)[4], I("FMT_ENERGY", 0)[3], I("FMT_ENERGY", 0)[4],
+           I("FMT_ENERGY", 1)[3], I("FMT_ENERGY", 1)[4]]
+    layout = (", ".join(str(v) for v in lay) + ",\n   " + ", ".join(pr(p) for p in num) + f", {atm[0][1]}, " + ", ".join(pr(p) for p in atm[1:])
+              + ", " + ", ".join(pr(p) for p in mo) + ", " + ", ".join(pr(p) for p in en) + f",\n   {chars(consts['DEFAULT_WFN_TTL'])}")
+    fmts_l = ",\n      ".join(f"({chars(k)}, [{', '.join(L0._field_lean(f) for f in fs)}])" for k, fs in fmts)
+    secs_l = ", ".join(f"⟨{chars(a)}, {chars(b)}, {c}, {chars(e)}, {g}⟩" for a, b, c, e, g in secs)
+    dumps_l = ", ".join(f"({chars(a)}, {chars(b)}, {c}, {e})" for a, b, c, e in dumps)
+    loads_l = ", ".join(f"({chars(a)}, {b}, {c}, {chars(e)})" for a, b, c, e in loads)
+    sl_l = ", ".join(f"({chars(fn)}, {a}, {'none' if b is None else f'some {b}'})" for fn, a, b in slices)
+    return (
+        f"def wfnL : WfnS.Layout :=\n  ⟨{layout}⟩\n\n"
+        f"def wfnSource : WfnS.Source :=\n  {{ fmts := [{fmts_l}],\n    secs := [{secs_l}],\n    dumps := [{dumps_l}],\n"
+        f"    loads := [{loads_l}],\n    slices := [{sl_l}],\n    consts := {strs(cs)} }}\n"
+    )
+
+
 def build_gen() -> str:
     out = ["import Iodata.Gen.Layouts", "import Iodata.Model.Fmt.AllW", "namespace Iodata.Gen.LayoutsW", "open Iodata.Fmt", ""]
     for fn in SECTIONS:
